@@ -41,6 +41,10 @@ class PolyMoments:
         out["float"] = S.__float__()
         T = ~S
         out["inv"] = [IntegrateShape.polynomial(T, a, b) for a, b in exps(min(self.order, 2))]
+        # the same object after an in-place change is still "a shape": integrate again
+        S.scale(2, F(1, 3))
+        S.move(F(1, 2), -1)
+        out["again"] = [IntegrateShape.polynomial(S, a, b) for a, b in exps(min(self.order, 2))]
         return out
 
     def oracle(self, vs, q):
@@ -59,6 +63,9 @@ class PolyMoments:
         obs.append(("area / float(S) differ from polynomial(S,0,0)", z3.Or(zraw(tr, out["area"]) != o[0], zraw(tr, out["float"]) != o[0]), {}))
         E2 = exps(min(self.order, 2))
         obs.append(("unbounded complement does not report minus the value", z3.Or([zraw(tr, g) != -o[E.index(e)] for e, g in zip(E2, out["inv"])]), {}))
+        vs2 = [(2 * x + M.qz3(1, 2), y * M.qz3(1, 3) - 1) for x, y in vs]
+        o2 = [M.chain_moment(M.polygon_segments(vs2), a, b, M.qz3) for a, b in E2]
+        obs.append(("moments after an in-place scale+move are not the exact integrals", z3.Or([zraw(tr, g) != w for g, w in zip(out["again"], o2)]), {}))
         return obs
 
     def on_raise(self, exc, func, line):
@@ -79,6 +86,11 @@ class PolyMoments:
         if name.startswith("area"):
             return val(outcome["area"]) != o[0] or val(outcome["float"]) != o[0], f"area {outcome['area']} float {outcome['float']} exact {o[0]}"
         E2 = exps(min(self.order, 2))
+        if name.startswith("moments after an in-place"):
+            vs2 = [(2 * x + F(1, 2), y * F(1, 3) - 1) for x, y in vs]
+            o2 = [M.chain_moment(M.polygon_segments(vs2), a, b, M.qfrac) for a, b in E2]
+            bad = [(e, str(g), str(w)) for e, g, w in zip(E2, outcome["again"], o2) if val(g) != w]
+            return bool(bad), f"polygon {[(str(x), str(y)) for x, y in vs]} scaled (2, 1/3) and moved (1/2, -1): {bad[:3]}"
         bad = [(e, str(g), str(-o[E.index(e)])) for e, g in zip(E2, outcome["inv"]) if val(g) != -o[E.index(e)]]
         return bool(bad), f"polygon {[(str(x), str(y)) for x, y in vs]}: complement moments {bad[:3]}"
 
